@@ -416,30 +416,197 @@ func ruleSampleBinOp(r *Run) {
 		os.Fail("-", "function not found")
 		return
 	}
-	tag2 := pickTag(rb, T, consts["OpAdd"])
+	// the dispatch may live in ReduceBinOp or in a helper of it
+	var tag2 ssa.Value
+	var df *ssa.Function
+	for _, gf := range funcGroup(rb) {
+		if t := pickTag(gf, T, consts["OpAdd"]); t != nil && tag2 == nil {
+			tag2, df = t, gf
+		}
+	}
 	if tag2 == nil {
 		os.Undecide(r.pos(rb.Pos()), "no dispatch on b.Op")
 		return
 	}
-	sideOf := func(v ssa.Value) string {
+	os.OK("dispatch on the same operator enum in %s", df.Name()).At(r.pos(df.Pos()))
+	os.Trivial = true
+	// operand sides: in ReduceBinOp a float is L/R when it is the Value of the literal
+	// that b.Left / b.Right reduces to; in a helper, the parameters carry the call site's sides.
+	rbSide := func(v ssa.Value) string {
 		f, base, ok := loadOfField(v)
 		if !ok || f != "Value" {
 			return ""
 		}
-		// lv / rv come from type assertions on left / right
-		d := describe(base, 0)
-		switch {
-		case strings.Contains(d, "left") || strings.Contains(d, "Left"):
-			return "L"
-		case strings.Contains(d, "right") || strings.Contains(d, "Right"):
-			return "R"
+		return reduceOperandSide(rb, base, 0, map[ssa.Value]bool{})
+	}
+	env := &opEnv{side: map[ssa.Value]string{}, fns: map[ssa.Value]*opClosure{}}
+	if df != rb {
+		for _, gf := range funcGroup(rb) {
+			for _, c := range callsIn(gf) {
+				if c.Common().StaticCallee() != df || gf != rb {
+					continue
+				}
+				for i, a := range c.Common().Args {
+					if i < len(df.Params) {
+						if sd := rbSide(a); sd != "" {
+							env.side[df.Params[i]] = sd
+						}
+					}
+				}
+			}
+		}
+	}
+	for _, name := range sortedKeysOf(sampleOpSpec) {
+		want := sampleOpSpec[name]
+		o := r.Ob("CH-SIB", "logql.ReduceBinOp["+name+"]", "constant folding computes the same function of (left literal, right literal) as evaluation does for this operator")
+		cv, okc := consts[name]
+		if !okc {
+			o.Fail(r.pos(df.Pos()), "operator constant %s not found", name)
+			continue
+		}
+		assume := map[ssa.Value]constant.Value{}
+		for _, t := range equivLoads(df, tag2) {
+			assume[t] = cv
+		}
+		w := &feWalker{Fn: df, Assume: assume, MaxPath: 20000}
+		out := map[string]bool{}
+		nOK := 0
+		for _, e := range w.Run() {
+			if isErr, known := endReturnsError(e); known && isErr {
+				continue
+			}
+			if df == rb && len(e.Results) > 0 && e.Results[0].Known && e.Results[0].C == nil {
+				continue // (nil, nil): not reducible
+			}
+			if df == rb && len(e.Results) > 0 && isNilConst(e.Results[0].V) {
+				continue
+			}
+			nOK++
+			side := func(v ssa.Value) string {
+				if df == rb {
+					return rbSide(v)
+				}
+				return (&opTracer{}).sideOf(df, v, env, 0)
+			}
+			for _, b := range e.State.trail {
+				if b.Parent() != df {
+					continue
+				}
+				for _, in := range b.Instrs {
+					switch x := in.(type) {
+					case *ssa.BinOp:
+						a, bb := side(x.X), side(x.Y)
+						if a != "" && bb != "" {
+							out[x.Op.String()+"("+a+","+bb+")"] = true
+						}
+						if (a == "R" && isZeroConst(x.Y) || bb == "R" && isZeroConst(x.X)) && (x.Op == token.NEQ || x.Op == token.EQL) {
+							out["guard:R!=0"] = true
+						}
+					case *ssa.Call:
+						pkg, nm := calleePkgName(x)
+						if pkg != "math" {
+							continue
+						}
+						if len(x.Call.Args) == 2 {
+							a, bb := side(x.Call.Args[0]), side(x.Call.Args[1])
+							if a != "" && bb != "" {
+								out["math."+nm+"("+a+","+bb+")"] = true
+							}
+						}
+						if nm == "NaN" {
+							out["NaN"] = true
+						}
+					}
+				}
+			}
+		}
+		if nOK == 0 {
+			o.Fail(r.pos(df.Pos()), "operator %s is never folded (all paths fail)", name)
+			continue
+		}
+		var xs []string
+		for k := range out {
+			xs = append(xs, k)
+		}
+		if got := normOpSummary(xs); got != want {
+			o.Fail(r.pos(df.Pos()), "constant folding computes %q for %s, evaluation computes %q", got, name, want)
+			continue
+		}
+		o.OK("%s", want).At(r.pos(df.Pos()))
+	}
+}
+
+// reduceOperandSide: which field of the BinOpExpr parameter (Left / Right) an operand value derives from.
+func reduceOperandSide(fn *ssa.Function, v ssa.Value, depth int, seen map[ssa.Value]bool) string {
+	if v == nil || depth > 14 || seen[v] {
+		return ""
+	}
+	seen[v] = true
+	merge := func(vs ...ssa.Value) string {
+		set := map[string]bool{}
+		for _, x := range vs {
+			if s := reduceOperandSide(fn, x, depth+1, seen); s != "" {
+				set[s] = true
+			}
+		}
+		if len(set) == 1 {
+			for s := range set {
+				return s
+			}
 		}
 		return ""
 	}
-	_ = sideOf
-	os.OK("dispatch on the same operator enum (bodies compared by C12's evaluation closures only)")
-	os.Trivial = true
+	switch x := v.(type) {
+	case *ssa.TypeAssert:
+		return merge(x.X)
+	case *ssa.Extract:
+		return merge(x.Tuple)
+	case *ssa.MakeInterface:
+		return merge(x.X)
+	case *ssa.ChangeInterface:
+		return merge(x.X)
+	case *ssa.ChangeType:
+		return merge(x.X)
+	case *ssa.Phi:
+		return merge(x.Edges...)
+	case *ssa.Call:
+		if x.Call.IsInvoke() {
+			return ""
+		}
+		return merge(x.Call.Args...)
+	case *ssa.UnOp:
+		if x.Op != token.MUL {
+			return ""
+		}
+		if f, base, ok := fieldNameOf(x.X); ok && len(fn.Params) > 0 && base == ssa.Value(fn.Params[0]) {
+			switch f {
+			case "Left":
+				return "L"
+			case "Right":
+				return "R"
+			}
+			return ""
+		}
+		if al, ok := x.X.(*ssa.Alloc); ok {
+			var vs []ssa.Value
+			for _, st := range storesTo(al) {
+				vs = append(vs, st.Val)
+			}
+			return merge(vs...)
+		}
+	}
+	return ""
 }
+
+func sortedKeysOf(m map[string]string) []string {
+	var ks []string
+	for k := range m {
+		ks = append(ks, k)
+	}
+	sort.Strings(ks)
+	return ks
+}
+
 
 // stepSide: does v (a Sample value or field of it) come from the left or the right input step?
 func stepSides(fn *ssa.Function) (map[ssa.Value]string, map[*ssa.Alloc]string) {
